@@ -5,5 +5,6 @@ for p in "$@"; do for s in $seeds; do
   out=$(VERIF_SEED=$s /verif/bin/verif check $p --tier quick 2>&1); rc=$?
   if [ $rc -ne 0 ]; then echo "== $p seed=$s exit=$rc"; echo "$out" | grep -E "^VIOLATION|^  class|HARNESS" | cut -c1-400; fi
   if [ $rc -eq 2 ]; then echo "$out" > /tmp/multiseed-exit2-$p-$s.txt; fi
+  echo "$out" | grep -E "^WARNING" | cut -c1-300
 done; done
 echo "multiseed done: $*"
